@@ -1,7 +1,6 @@
 package rules
 
 import (
-	"go/token"
 	"sort"
 	"strings"
 
@@ -123,26 +122,18 @@ func c09Collection(r *an.Run) {
 				if !ok {
 					return ""
 				}
-				var lenArg ssa.Value
-				if lc, ok := cmp.X.(*ssa.Call); ok && an.IsCallTo(lc, "builtin:len") {
-					if k, isc := an.ConstInt(cmp.Y); isc && k == 0 {
-						lenArg = lc.Call.Args[0]
-					}
-				}
-				if lenArg == nil {
+				subject, emptyWhenTrue, ok := emptinessTest(cmp)
+				if !ok {
 					return ""
 				}
-				name := loadedField(lenArg)
+				name := loadedField(subject)
 				if name != "Patches" && name != "PatchesFile" {
 					return ""
 				}
-				switch cmp.Op {
-				case token.EQL:
+				if emptyWhenTrue {
 					return name + "-empty"
-				case token.NEQ, token.GTR:
-					return "not:" + name + "-empty"
 				}
-				return ""
+				return "not:" + name + "-empty"
 			}
 			var stopAt []*ssa.BasicBlock
 			stopAt = append(stopAt, reader.Block())
